@@ -20,6 +20,18 @@ func (fx *fexec) externModel(key string, x *ssa.Call, f *ssa.Function, args []Va
 		return Val{Ty: rt, T: e}
 	}
 	switch key {
+	case "bytes.Compare":
+		// byte-wise lexicographic order is the order of the strings the slices convert to
+		vc.note("extern bytes.Compare: three-way lexicographic comparison, i.e. the order of string(a) and string(b) (assumed from its documentation)")
+		heapOf := func(c, s string) Term { return vc.heapGet(st, c, s) }
+		sa := vc.pureApp("string.ofbytes", []Val{args[0]}, types.Typ[types.String], heapOf)
+		sb := vc.pureApp("string.ofbytes", []Val{args[1]}, types.Typ[types.String], heapOf)
+		less := lt(sa, sb)
+		if vc.strSMT {
+			less = app(SBool, "str.<", sa, sb)
+		}
+		r := ite(eq(sa, sb), intLit(0), ite(less, intLit(-1), intLit(1)))
+		return Val{Ty: rt, T: vc.define(x.Name(), vc.fromInt(r, rt))}, true
 	case "bytes.Equal":
 		vc.note("extern bytes.Equal: extensional equality of the byte sequences (assumed)")
 		sc := &SpecCtx{vc: vc, st: st, old: st}
@@ -298,7 +310,7 @@ func externAssigns(vc *VC, key string, cc *ssa.CallCommon) (map[string]string, b
 				return map[string]string{comp: srt}, true
 			}
 		}
-	case "bytes.Equal", "bytes.HasPrefix", "errors.New", "fmt.Errorf", "fmt.Sprintf", "fmt.Sprint", "strings.Compare":
+	case "bytes.Compare", "bytes.Equal", "bytes.HasPrefix", "errors.New", "fmt.Errorf", "fmt.Sprintf", "fmt.Sprint", "strings.Compare":
 		return map[string]string{}, true
 	}
 	if strings.HasPrefix(key, "math/big.") {
